@@ -3,7 +3,7 @@
 From Coq Require Import ZArith QArith List.
 From Coq Require Extraction.
 From Coq Require Import ExtrOcamlBasic.
-From Scenic Require Import C05.Expr.
+From Scenic Require Import C05.Expr C05.Vec.
 Extraction Language OCaml.
 Extraction "model.ml" capture eval_py eval_cap eval_node support node_of hypot_support_fixed2
-  hypot_support_asis2 Qred.
+  hypot_support_asis2 Qred vcap veval nev vzero_all cls_of.
